@@ -27,7 +27,8 @@ struct Params {
 }
 
 fn publish_msg(i: usize, size: usize) -> Vec<Vec<u8>> {
-    vec![format!("t{}", i).into_bytes(), rc::pattern(size, i as u64 + 1, 0)]
+    // (the topic frame once more at the end: frames of equal content within one message)
+    vec![format!("t{}", i).into_bytes(), rc::pattern(size, i as u64 + 1, 0), format!("t{}", i).into_bytes()]
 }
 
 fn scenario(pr: &Params) -> Verdict {
